@@ -267,15 +267,7 @@ impl System {
             .ok_or(IggyError::ResourceNotFound(user_id.to_string()))?;
         self.permissioner
             .delete_permissions_for_user(existing_user_id);
-        let mut client_manager = self.client_manager.write().await;
-        client_manager
-            .delete_clients_for_user(existing_user_id)
-            .await
-            .with_error_context(|error| {
-                format!(
-                    "{COMPONENT} (error: {error}) - failed to delete clients for user with ID: {existing_user_id}"
-                )
-            })?;
+        self.delete_clients_for_user(existing_user_id).await;
         info!("Deleted user: {existing_username} with ID: {user_id}.");
         self.metrics.decrement_users(1);
         Ok(user)
